@@ -26,6 +26,7 @@ type SchemaOpts struct {
 	Paths      []string // names of paths that may be referenced by path targets
 	NoAnyAttr  bool
 	LitOnly    bool // only constraints expressible in both syntaxes (C19)
+	AddrPct    int  // percent chance that an attribute is addressable (default 25)
 }
 
 func (g G) Type(depth int) cty.Type {
@@ -373,7 +374,11 @@ func (g G) Body(level int, o SchemaOpts, isDep bool) m.BodyM {
 		names := Perm(g, AttrNames)
 		for i := 0; i < n; i++ {
 			a := g.Attr(consDepth, o)
-			if g.Chance(25) {
+			ap := o.AddrPct
+			if ap == 0 {
+				ap = 25
+			}
+			if g.Chance(ap) {
 				a.Addr = g.attrAddr()
 			}
 			if len(o.Paths) > 1 && g.Chance(8) {
